@@ -463,3 +463,25 @@ def bip143_hashtypes(ctx):
             uses_own = any(isinstance(s_, tuple) and s_[0] == 'index' and s_[1] == A(SELF, 'outputs') and s_[2] == sid for s_ in subterms(('w', ho)))
             ctx.require(ho != Z and uses_own and ho != exp_parts[8], q, 'hash type 0x%02x (SINGLE): hashOutputs is %s, BIP143 says the hash of the output with the same index' % (ht, 'zero' if ho == Z else show(ho)[:80]), fn,
                         'a valid SIGHASH_SINGLE segwit input fails verification')
+
+
+@PROP.obligation('C01.public-hash-writers', canaries=[
+    mut.replace_stmt('transactions', 'Input.__init__', 'self.signatures = []', 'self.signatures = []\nif self.address_obj and not self.public_hash:\n    self.public_hash = self.address_obj.hash_bytes', 'public_hash pre-filled from the address'),
+])
+def public_hash_writers(ctx):
+    """Input.public_hash feeds the BIP143 script code 76a914<public_hash>88ac of (nested) P2WPKH inputs, so it must be the hash160 of the
+    KEY. Every assignment to self.public_hash in Input takes it from the constructor argument, the parsed locking script, the key
+    (keys[0].hash160) or the redeem script hash - never from an Address object: the address of a P2SH-P2WPKH input commits to the
+    redeem-script hash."""
+    n = 0
+    for q in ('transactions:Input.__init__', 'transactions:Input.update_scripts'):
+        fn = ctx.repo.func(q)
+        for a_ in ast.walk(fn):
+            if isinstance(a_, ast.Assign) and norm(a_.targets[0]) == 'self.public_hash':
+                n += 1
+                txt = norm(a_.value)
+                ctx.saw('%s: self.public_hash = %s' % (q, txt[:90]))
+                if any(isinstance(x, ast.Attribute) and x.attr in ('hash_bytes', 'hashed_data', 'address_obj', '_address_obj') for x in ast.walk(a_.value)) or 'Address' in txt or 'deserialize_address' in txt:
+                    ctx.violate(q, 'public_hash is taken from the address (`%s`)' % txt[:80], a_,
+                                'a P2SH-P2WPKH input given with its address signs over the script code of the script hash: valid for the library, rejected by the network')
+    ctx.floor(n, 4, 'assignments to Input.public_hash')
